@@ -497,6 +497,11 @@ inline model::MLabel label(Ctx& c) {
     Rng& r = c.r;
     l.text = text(r, 1, 16, true);
     if (c.cfg.long_strings && r.chance(0.03)) l.text = text(r, 300, 3000, true);
+    if (c.cfg.long_strings && c.cfg.mode == canon::GDS && r.chance(0.01)) {
+        // as long as one GDSII record can hold ("strings fit one record, < 65530 bytes")
+        int n = (int)r.range(65500, 65529);
+        l.text = text(r, n, n, true);
+    }
     l.layer = tagval(c);
     l.ttype = tagval(c);
     l.origin = point(c);
